@@ -85,6 +85,7 @@ def obj3d(
     velocity=(0.0, 0.0, 0.0),
     vid=None,
     label_obj=None,
+    size_as_given=False,
 ):
     """3-D object given by its EGO-relative pose; rendered in `frame` (map rendering needs ego)."""
     pos = (float(pos[0]), float(pos[1]), float(pos[2]) if len(pos) > 2 else 0.0)
@@ -96,7 +97,7 @@ def obj3d(
         frame_id=FrameID.MAP if frame == "map" else FrameID.BASE_LINK,
         position=pos,
         orientation=yaw_quat(yaw, quat_sign),
-        shape=Shape(ShapeType.BOUNDING_BOX, tuple(float(s) for s in size)),
+        shape=Shape(ShapeType.BOUNDING_BOX, tuple(size) if size_as_given else tuple(float(s) for s in size)),
         velocity=velocity,
         semantic_score=float(score),
         semantic_label=label_obj if label_obj is not None else aw_label(label, attributes),
